@@ -30,18 +30,36 @@ def tla_set(xs):
     return "{" + ", ".join(str(x) for x in xs) + "}"
 
 
-def race_signature(out):
-    """names the racing functions of the first report: datarace:<fn>|<fn>"""
-    m = re.search(r"WARNING: DATA RACE\n(.*?)\n==================", out, re.S)
-    block = m.group(1) if m else ""
-    fns = []
-    for part in re.split(r"\n\n", block)[:2]:
-        for line in part.splitlines():
-            mm = re.match(r"\s+(github\.com/containerd/stargz-snapshotter/\S+?)\(\)", line)
-            if mm:
-                fns.append(mm.group(1).replace("github.com/containerd/stargz-snapshotter/", ""))
-                break
-    return "datarace:" + "|".join(sorted(set(fns)) or ["unknown"]), block
+def enclosing_func(path, line):
+    """name of the top-level function of a repository source file that contains the line"""
+    try:
+        src = open(path).read().splitlines()
+    except OSError:
+        return "?"
+    for i in range(min(line, len(src)) - 1, -1, -1):
+        m = re.match(r"func\s+(?:\([^)]*\)\s*)?([A-Za-z0-9_]+)", src[i])
+        if m:
+            return m.group(1)
+    return "?"
+
+
+def race_signatures(out):
+    """one signature per distinct race: the repository (not harness) source functions of the two racing accesses,
+    datarace:<file>:<func>|<file>:<func> - independent of inlining into the driver and of line numbers"""
+    res = collections.OrderedDict()
+    for block in re.findall(r"WARNING: DATA RACE\n(.*?)\n==================", out, re.S):
+        sites = []
+        for part in re.split(r"\n\n", block)[:2]:
+            site = None
+            for mm in re.finditer(r"\n\s+(/\S+\.go):(\d+)", part):
+                f, ln = mm.group(1), int(mm.group(2))
+                if f.startswith(REPO + "/") and not os.path.basename(f).startswith("verif_"):
+                    site = "%s:%s" % (os.path.relpath(f, REPO), enclosing_func(f, ln))
+                    break
+            sites.append(site or "harness")
+        sig = "datarace:" + "|".join(sorted(set(sites)))
+        res.setdefault(sig, block)
+    return res
 
 
 def scenario_of_trace(tr):
@@ -56,51 +74,116 @@ def describe_violation(viol, mode, what, tr, idx):
     return "monitor:%s:%s:%s:%s" % (viol, mode, what, srcs), hist
 
 
-def validate(run, mode, path, what, nconv, conformance):
+class ParTLC:
+    """Runs several TLC jobs of this check at once (at most 4 JVMs, one worker each) and hands the results to the
+    ordinary vlib stages: run.tlc is answered from the prefetched results, so verdict logic and evidence stay in vlib."""
+
+    def __init__(self, run):
+        import threading
+        self.run, self.orig, self.cache, self.lock, self.n = run, run.tlc, {}, threading.Lock(), 0
+        run.tlc = self.tlc
+        run._prep = self.prep
+
+    def prep(self, files, extra=None):
+        # same as vlib.Run._prep with a counter of its own (thread-safe directory names)
+        with self.lock:
+            self.n += 1
+            n = self.n
+        d = os.path.join(self.run.scratch, "ptlc%d" % n)
+        os.makedirs(d)
+        for f in os.listdir(SPEC):
+            if f.endswith(".tla"):
+                shutil.copy(os.path.join(SPEC, f), d)
+        for name, src in (extra or {}).items():
+            if isinstance(src, str) and os.path.exists(src):
+                shutil.copy(src, os.path.join(d, name))
+            else:
+                with open(os.path.join(d, name), "w") as fh:
+                    fh.write(src)
+        return d
+
+    def key(self, module, cfg, overrides, extra, dfs):
+        return canon([module, self.run.cfg_text(cfg, overrides), extra or {}, bool(dfs)])
+
+    def tlc(self, module, cfg, overrides=None, workers=4, timeout=600, extra=None, args=(), dfs=False):
+        k = self.key(module, cfg, overrides, extra, dfs)
+        with self.lock:
+            r = self.cache.pop(k, None)
+        if r is not None:
+            return r
+        return self.orig(module, cfg, overrides, workers, timeout, extra=extra, args=args, dfs=dfs)
+
+    def prefetch(self, calls, timeout=1500):
+        """calls: list of dict(module, cfg, overrides, extra, dfs)"""
+        import concurrent.futures
+        def one(c):
+            r = self.orig(c["module"], c["cfg"], c.get("overrides"), 1, c.get("timeout", timeout), extra=c.get("extra"), dfs=c.get("dfs", False))
+            with self.lock:
+                self.cache[self.key(c["module"], c["cfg"], c.get("overrides"), c.get("extra"), c.get("dfs", False))] = r
+        with concurrent.futures.ThreadPoolExecutor(max_workers=4) as ex:
+            for f in [ex.submit(one, c) for c in calls]:
+                f.result()
+
+
+def negctl_cfg(run, cfg, overrides, drop):
+    # the text vlib.tlc_negctl builds (kept identical so that the prefetched result is found)
+    txt = run.cfg_text(cfg, overrides)
+    for name in drop:
+        txt = re.sub(r"(?m)^((?:INVARIANTS?|PROPERTIES|PROPERTY)\b.*?)\s\b%s\b" % re.escape(name), r"\1", txt)
+    return txt
+
+
+def validate(run, mode, path, conformance_path):
+    """monitor over all recorded traces of the mode (gated + free-run), conformance over the gated ones"""
     events = read_ndjson(path)
     traces = split_traces(events)
     if not traces:
-        raise Inconclusive("driver wrote no events for %s %s" % (mode, what))
+        raise Inconclusive("driver wrote no events for %s" % mode)
     run.cov["evaluations"] += len(events)
-    ovm = {"Mode": q(mode), "NConv": str(max(nconv, 1))}
-    viol, mr = run.tlc_monitor("ConvertMonitor", "ConvertMonitor.cfg", path, ovm, timeout=900)
+    viol, mr = run.tlc_monitor("ConvertMonitor", "ConvertMonitor.cfg", path, {"Mode": q(mode)}, timeout=900)
     res = None
-    if conformance:
-        res = run.tlc_trace("ConvertTrace", "ConvertTrace.cfg", path, {"Mode": q(mode), "NConv": str(nconv)}, timeout=900)
-    log("[trace] %-6s %-10s %4d traces %6d events: conformance %s, monitor %s" % (
-        mode, what, len(traces), len(events),
+    if conformance_path:
+        res = run.tlc_trace("ConvertTrace", "ConvertTrace.cfg", conformance_path, {"Mode": q(mode)}, timeout=900)
+    ng = sum(1 for s, t in traces if t[0].get("name", "").startswith("g-"))
+    log("[trace] %-6s %4d gated + %3d free-run traces %6d events: conformance(gated) %s, monitor %s" % (
+        mode, ng, len(traces) - ng, len(events),
         "-" if res is None else ("accepted" if res["accepted"] else "REJECTED at line %s" % res["consumed"]), viol or "ok"))
     if viol:
         m = re.findall(r"/\\ l = (\d+)", mr.out)
         line = int(m[-1]) - 1 if m else 1
         tr = [t for t in traces if t[0] <= line][-1]
         idx = line - tr[0]
+        what = "gated" if scenario_of_trace(tr[1]).startswith("g-") else "free-run"
         sig, hist = describe_violation(viol, mode, what, tr[1], idx)
         run.violation(sig, "%s false on what the %s converter did (%s, scenario %s) after %s: %s" % (
             viol, mode, what, scenario_of_trace(tr[1]), hist or "-", json.dumps(tr[1][idx])[:600]),
             {"formula": viol, "mode": mode, "run": what, "event_index": idx, "trace": tr[1][: idx + 1]})
         return
     if res is not None and not res["accepted"]:
+        gev = read_ndjson(conformance_path)
+        gtr = split_traces(gev)
         line = (res["consumed"] or 0) + 1
-        tr = [t for t in traces if t[0] <= line][-1]
+        tr = [t for t in gtr if t[0] <= line][-1]
         if res["violated"] in PROPERTY_FORMULAS:
-            run.violation("trace-invariant:%s:%s:%s" % (res["violated"], mode, what),
+            run.violation("trace-invariant:%s:%s:gated" % (res["violated"], mode),
                           "%s false while following the recorded trace" % res["violated"], {"trace": tr[1][: line - tr[0] + 2]})
         else:
-            run.inconclusive.append("SPEC-DRIFT %s %s scenario %s: event %d %s not explained by Convert.tla although no C19 formula is false; prefix: %s" % (
-                mode, what, scenario_of_trace(tr[1]), line - tr[0], json.dumps(events[line - 1])[:500],
+            run.inconclusive.append("SPEC-DRIFT %s gated scenario %s: event %d %s not explained by Convert.tla although no C19 formula is false; prefix: %s" % (
+                mode, scenario_of_trace(tr[1]), line - tr[0], json.dumps(gev[line - 1])[:500],
                 json.dumps([{k: v for k, v in e.items() if k not in ("facts", "srcs")} for e in tr[1][max(0, line - tr[0] - 8): line - tr[0] + 1]])[:3000]))
         return
     run.cov["traces_validated_against_impl"] += len(traces)
     nontriv = [t for s, t in traces if any(e.get("ev") == "Return" and e.get("res") == "desc" for e in t)]
     run.cov["distinct_nontrivial"] += len({digest([{k: v for k, v in e.items() if k != "name"} for e in t]) for t in nontriv})
-    run.add_samples([{"mode": mode, "run": what, "events": [{k: v for k, v in e.items() if k != "facts"} for e in t[:14]]} for t in nontriv[:1]], limit=4)
+    run.add_samples([{"mode": mode, "events": [{k: v for k, v in e.items() if k != "facts"} for e in t[:14]]} for t in nontriv[:1]], limit=4)
 
 
 def check(run):
+    import threading
     thorough = run.tier == "thorough"
+    par = ParTLC(run)
     run.cov["rule"] = ("gated: walks covering every edge of the TLC schedule graph of Convert (2 parallel conversions per converter instance, "
-                       "segments Begin/Build/OpenStream/CommitBlob|Interrupt/Annotate/MapWriteBegin/MapWriteEnd/Finalize, all pairs of the chosen "
+                       "segments Begin/Build/OpenStream/CommitBlob|Interrupt/Annotate/MapWriteBegin/MapWriteEnd/Finalize, all ordered pairs of the chosen "
                        "source layers) imposed on real ConvertFunc goroutines against plugins/content/local; free: 2-4 conversions in parallel under "
                        "-race with barriers at the option append and the map write; every value recomputed from the bytes read back from the store; "
                        "non-trivial = at least one conversion returned a descriptor; distinct by hash of the recorded events")
@@ -111,37 +194,26 @@ def check(run):
         "free-running traces are decided by the monitor only; the lossless writer deviating from its source (MayDeviate) exists only in the design model",
         "source layers: two small tars (dirs, regular files up to 11 KB, several chunks with the 4 KiB chunk option, symlink, empty file) as plain/gzip/zstd/eStargz, OCI and Docker media types",
     ]
-    # development knobs (not used by ./check as registered): VERIF_C19_ONLY=ext,zstd restricts the modes, VERIF_C19_SKIPMC=1 skips M
+    # development knobs (never set by ./check as registered; a run with one of them set cannot exit 0)
     only = [m for m in os.environ.get("VERIF_C19_ONLY", "").split(",") if m]
     MODES = tuple(m for m in ALLMODES if not only or m in only)
     skipmc = os.environ.get("VERIF_C19_SKIPMC") == "1"
-    # ---------------------------------------------------------------- M: design, exhaustive
-    for mode in (() if skipmc else MODES):
-        run.tlc_mc("Convert", "Convert_mc.cfg", {"Mode": q(mode)}, workers=4, timeout=1500, name="Convert_mc.cfg %s N=2 4 sources" % mode)
-    if thorough:
-        for mode in MODES:
-            run.tlc_mc("Convert", "Convert_mc.cfg", {"Mode": q(mode), "NConv": "3", "SrcIds": "{2, 4, 6}" if mode != "extll" else "{2, 4, 5}", "MaxIntr": "2"},
-                       workers=4, timeout=3000, name="Convert_mc.cfg %s N=3" % mode)
-    if only or skipmc:
-        run.inconclusive.append("development knobs VERIF_C19_ONLY/VERIF_C19_SKIPMC are set: partial run")
-    if not skipmc:
-      run.tlc_negctl("Convert", "Convert_mc.cfg", {"MapLock": "FALSE"}, ["MapWritesMutuallyExclusive"], drop=INTERNAL)
-      run.tlc_negctl("Convert", "Convert_mc.cfg", {"CopyOpts": "FALSE"}, ["NoConversionPanics", "TocImageMapsEveryLayer", "DescDescribesBlob"], drop=INTERNAL)
-      run.tlc_negctl("Convert", "Convert_mc.cfg", {"CopyOpts": "FALSE", "Mode": q("zstd")}, ["DescDescribesBlob"], drop=INTERNAL)
-      run.tlc_negctl("Convert", "Convert_mc.cfg", {"DiffIDCheck": "FALSE", "Mode": q("extll")}, ["LosslessKeepsDiffID"], drop=INTERNAL)
-      run.tlc_negctl("Convert", "Convert_mc.cfg", {"UpdateLabel": "FALSE", "Mode": q("esgz")}, ["DescDescribesBlob"], drop=INTERNAL)
-      run.tlc_negctl("Convert", "Convert_mc.cfg", {"MediaTypeFollowsBlob": "FALSE", "Mode": q("esgz")}, ["DescDescribesBlob"], drop=INTERNAL)
+    stages = [x for x in os.environ.get("VERIF_C19_STAGES", "gated,free").split(",") if x]
+    if only or skipmc or stages != ["gated", "free"]:
+        run.inconclusive.append("development knobs VERIF_C19_ONLY/SKIPMC/STAGES are set: partial run")
 
     # ---------------------------------------------------------------- R/G: schedules from the graph
     gen_srcs = {"esgz": [1, 4], "zstd": [2, 3], "ext": [2, 5], "extll": [3, 4]}
     if thorough:
         gen_srcs = {"esgz": [1, 4, 6], "zstd": [2, 3, 6], "ext": [2, 5, 4], "extll": [3, 4, 1]}
+    gen_ov = {mode: {"Mode": q(mode), "SrcIds": tla_set(gen_srcs[mode])} for mode in MODES}
+    par.prefetch([dict(module="ConvertGen", cfg="Convert_gen.cfg", overrides=gen_ov[m]) for m in MODES])
     jobs = []
-    gated = {}
+    gated, free, allev = {}, {}, {}
     exhaustive = True
     for mode in MODES:
-        inits, edges = run.tlc_edges("ConvertGen", "Convert_gen.cfg", {"Mode": q(mode), "SrcIds": tla_set(gen_srcs[mode])}, timeout=1500)
-        walks, st = edge_cover(inits, edges, maxlen=40, rng=run.rng, extra_walks=40 if thorough else 6)
+        inits, edges = run.tlc_edges("ConvertGen", "Convert_gen.cfg", gen_ov[mode], timeout=1500)
+        walks, st = edge_cover(inits, edges, maxlen=40, rng=run.rng, extra_walks=40 if thorough else 4)
         log("[walks] %s: %s" % (mode, st))
         exhaustive = exhaustive and st["covered"] == st["edges"]
         run.cov["stages"].append(dict(stage="edge-cover", mode=mode, **st))
@@ -152,24 +224,22 @@ def check(run):
             scs.append({"name": "g-%s-%d" % (mode, i), "mode": mode, "sparecap": True, "optset": (i + run.seed) % 2, "perlayer": False,
                         "srcs": srcs, "free": False, "stale": (i + run.seed) % 3 == 0,
                         "walk": [{"act": s["act"], "c": s.get("c", 0)} for s in w]})
-        out = os.path.join(run.scratch, "gated_%s.ndjson" % mode)
-        gated[mode] = out
-        jobs.append({"out": out, "scenarios": scs})
+        gated[mode] = os.path.join(run.scratch, "gated_%s.ndjson" % mode)
+        jobs.append({"out": gated[mode], "scenarios": scs})
     # ---------------------------------------------------------------- T: free-running parallel conversions
-    free = {}
     free_srcs = {"esgz": [1, 2, 3, 4, 5, 6], "zstd": [1, 2, 3, 4, 5, 6], "ext": [1, 2, 3, 4, 5, 6], "extll": [1, 2, 3, 5]}
-    reps = 3 if thorough else 1
+    reps = 2 if thorough else 1
     for mode in MODES:
         scs = []
         ids = free_srcs[mode]
         combos = list(itertools.combinations(ids, 2)) + [(i, i) for i in ids[:2]]
         run.rng.shuffle(combos)
-        combos = combos if thorough else combos[:4]
+        combos = combos if thorough else combos[:2]
         k = 0
         for rep in range(reps):
             for a, b in combos:
                 k += 1
-                scs.append({"name": "f-%s-%d" % (mode, k), "mode": mode, "sparecap": k % 2 == 0, "optset": (k // 2) % 2, "perlayer": k % 5 == 4,
+                scs.append({"name": "f-%s-%d" % (mode, k), "mode": mode, "sparecap": k % 2 == 1, "optset": (k // 2) % 2, "perlayer": k % 5 == 4,
                             "srcs": [CATALOGUE[a], CATALOGUE[b]], "free": True, "stale": k % 3 == 0})
             for n in ((3, 4) if thorough else (3 + run.seed % 2,)):
                 pick = [ids[(rep + j * 2 + run.seed) % len(ids)] for j in range(n)]
@@ -178,37 +248,78 @@ def check(run):
                 k += 1
                 scs.append({"name": "f-%s-%d" % (mode, k), "mode": mode, "sparecap": True, "optset": k % 2, "perlayer": False,
                             "srcs": [CATALOGUE[x] for x in pick], "free": True, "stale": False})
-        out = os.path.join(run.scratch, "free_%s.ndjson" % mode)
-        free[mode] = out
-        jobs.append({"out": out, "scenarios": scs})
-    stages = [x for x in os.environ.get("VERIF_C19_STAGES", "gated,free").split(",") if x]
-    if stages != ["gated", "free"]:
-        run.inconclusive.append("development knob VERIF_C19_STAGES is set: partial run")
+        free[mode] = os.path.join(run.scratch, "free_%s.ndjson" % mode)
+        jobs.append({"out": free[mode], "scenarios": scs})
+
+    # the Go stages run while TLC checks the design.
     # gated walks execute one segment at a time (nothing runs concurrently, the race detector has nothing to see): plain build;
     # free-running parallel conversions: -race
-    for stage, race in (("gated", False), ("free", True)):
-        if stage not in stages:
+    go_res = []
+
+    def go_stages():
+        for stage, race in (("gated", False), ("free", True)):
+            if stage not in stages:
+                continue
+            inp = os.path.join(run.scratch, "scenarios_%s.json" % stage)
+            write_json(inp, [j for j in jobs if os.path.basename(j["out"]).startswith(stage)])
+            try:
+                go_res.append((stage,) + run.go_test("", "./nativeconverter/estargz/externaltoc/", OVERLAY, "^TestVerifConvert$",
+                                                     env={"VERIF_IN": inp, "VERIF_PAR": "12"}, timeout=2400, race=race))
+            except Exception as e:  # reported by the main thread
+                go_res.append((stage, -1, "go stage broke: %r" % (e,)))
+    th = threading.Thread(target=go_stages)
+    th.start()
+    try:
+        # ------------------------------------------------------------ M: design, exhaustive (+ vacuity guards)
+        if not skipmc:
+            negs = [({"MapLock": "FALSE"}, ["MapWritesMutuallyExclusive"]),
+                    ({"CopyOpts": "FALSE"}, ["NoConversionPanics", "TocImageMapsEveryLayer", "DescDescribesBlob"]),
+                    ({"CopyOpts": "FALSE", "Mode": q("zstd")}, ["DescDescribesBlob"]),
+                    ({"DiffIDCheck": "FALSE", "Mode": q("extll")}, ["LosslessKeepsDiffID"]),
+                    ({"UpdateLabel": "FALSE", "Mode": q("esgz")}, ["DescDescribesBlob"]),
+                    ({"MediaTypeFollowsBlob": "FALSE", "Mode": q("esgz")}, ["DescDescribesBlob"])]
+            par.prefetch([dict(module="Convert", cfg="Convert_mc.cfg", overrides={"Mode": q(m)}) for m in MODES] +
+                         [dict(module="Convert", cfg=negctl_cfg(run, "Convert_mc.cfg", ov, INTERNAL)) for ov, _ in negs])
+            for mode in MODES:
+                run.tlc_mc("Convert", "Convert_mc.cfg", {"Mode": q(mode)}, workers=4, timeout=1500, name="Convert_mc.cfg %s N=2 4 sources" % mode)
+            if thorough:
+                for mode in MODES:
+                    run.tlc_mc("Convert", "Convert_mc.cfg", {"Mode": q(mode), "NConv": "3", "SrcIds": "{2, 4, 6}" if mode != "extll" else "{2, 4, 5}", "MaxIntr": "2"},
+                               workers=4, timeout=3000, name="Convert_mc.cfg %s N=3" % mode)
+            for ov, expect in negs:
+                run.tlc_negctl("Convert", "Convert_mc.cfg", ov, expect, drop=INTERNAL)
+    finally:
+        th.join()
+    for stage, rc, out in go_res:
+        if rc == 0:
             continue
-        inp = os.path.join(run.scratch, "scenarios_%s.json" % stage)
-        write_json(inp, [j for j in jobs if os.path.basename(j["out"]).startswith(stage)])
-        rc, out = run.go_test("", "./nativeconverter/estargz/externaltoc/", OVERLAY, "^TestVerifConvert$",
-                              env={"VERIF_IN": inp, "VERIF_PAR": "12"}, timeout=2400, race=race)
-        if rc != 0:
-            if "WARNING: DATA RACE" in out:
-                # the race detector reported a race between parallel conversions of one converter instance: the shared state the
-                # property quantifies over ("also when layers are converted concurrently")
-                sig, block = race_signature(out)
+        if "WARNING: DATA RACE" in out:
+            # the race detector reported a race between parallel conversions of one converter instance: the shared state the
+            # property quantifies over ("also when layers are converted concurrently")
+            for sig, block in race_signatures(out).items():
+                if sig == "datarace:harness":
+                    run.inconclusive.append("data race inside the driver itself:\n" + block[:3000])
+                    continue
                 run.violation(sig, "data race between layer conversions run in parallel by one converter instance", {"log": block[:6000]})
-            elif "concurrent map writes" in out or "concurrent map read and map write" in out:
-                run.violation("fatal:concurrent-map-writes:externaltoc.layerConvert", "the Go runtime aborted: concurrent map writes on esgzDigest2TOC",
-                              {"log": out[-4000:]})
-            else:
-                raise Inconclusive("driver failed (rc=%d):\n%s" % (rc, "\n".join(out.splitlines()[-60:])))
+        elif "concurrent map writes" in out or "concurrent map read and map write" in out:
+            run.violation("fatal:concurrent-map-writes:nativeconverter/estargz/externaltoc/converter.go:layerConvert",
+                          "the Go runtime aborted: concurrent map writes on esgzDigest2TOC", {"log": out[-4000:]})
+        else:
+            raise Inconclusive("driver failed in stage %s (rc=%d):\n%s" % (stage, rc, "\n".join(out.splitlines()[-60:])))
+    # ---------------------------------------------------------------- verdicts: TLC on what the implementation did
+    calls = []
     for mode in MODES:
+        allev[mode] = os.path.join(run.scratch, "all_%s.ndjson" % mode)
+        with open(allev[mode], "w") as fh:
+            for pth in (gated[mode], free[mode]):
+                if os.path.exists(pth):
+                    fh.write(open(pth).read())
+        calls.append(dict(module="ConvertMonitor", cfg="ConvertMonitor.cfg", overrides={"Mode": q(mode)}, extra={"trace.ndjson": allev[mode]}, timeout=900))
         if os.path.exists(gated[mode]):
-            validate(run, mode, gated[mode], "gated", 2, True)
-        if os.path.exists(free[mode]):
-            validate(run, mode, free[mode], "free-run", 4, False)
+            calls.append(dict(module="ConvertTrace", cfg="ConvertTrace.cfg", overrides={"Mode": q(mode)}, extra={"trace.ndjson": gated[mode]}, dfs=True, timeout=900))
+    par.prefetch(calls)
+    for mode in MODES:
+        validate(run, mode, allev[mode], gated[mode] if os.path.exists(gated[mode]) else None)
     run.cov["exhaustive"] = exhaustive
 
 
